@@ -1708,6 +1708,11 @@ pub fn split_string_v2(string: &str, multi_target: bool) -> Result<Box<[String]>
                 escaping = false;
                 continue;
             }
+            '0' if escaping => {
+                buf.push('\0');
+                escaping = false;
+                continue;
+            }
             _ => {
                 if escaping {
                     bail!("Unknown escape sequence: \\{char} (src = {string:?})")
